@@ -44,6 +44,11 @@ def Pre (g : G) (inst : Str) (cur : Int) : Prop :=
 
 instance (g : G) (inst : Str) (cur : Int) : Decidable (Pre g inst cur) := by unfold Pre; infer_instance
 
+/-- the arguments are Go `int32`s -/
+def OpI32 : Op → Prop
+  | .set _ _ c => InI32 c
+  | .resize n => InI32 n
+
 /-- an operation the property talks about, at state `g` -/
 def OpOk (g : G) : Op → Prop
   | .set i _ c => InI32 c ∧ (0 ≤ c → Pre g i c)
